@@ -13,7 +13,9 @@ The BLACKOUT schedules: the prompt schedule with every upstream (resp. downstrea
 namespace Iodine.C02L
 open Iodine Iodine.World
 
-structure QuietImmD (P : Par) (du dd : Nat) (w : W) : Prop where
+/-- … with the freshness slacks of the server's duplicate memories as parameters: `sl` for the data-CMC counter (`Aged`),
+`sp` for the ping seed (`PAged`) — how many queries the client may have sent that never reached the server (+1) -/
+structure QuietImmDS (P : Par) (du dd sl sp : Nat) (w : W) : Prop where
   ph : w.cs.ph = .tunnel
   cst : CStat P w.cs.c
   idleC : Client.isSending w.cs.c = false
@@ -24,12 +26,31 @@ structure QuietImmD (P : Par) (du dd : Nat) (w : W) : Prop where
   oq : (Server.getUser w.srv P.u).oqFilled = 0
   syncu : w.cs.c.outpkt.seqno = ((Server.getUser w.srv P.u).inpacket.seqno + du) % 8
   syncd : (Server.getUser w.srv P.u).outpacket.seqno = (w.cs.c.inpkt.seqno + dd) % 8
-  aged : Aged P (Server.getUser w.srv P.u) w.cs.c.datacmc 1
-  paged : PAged P (Server.getUser w.srv P.u) w.cs.c.randSeed 1
+  aged : Aged P (Server.getUser w.srv P.u) w.cs.c.datacmc sl
+  paged : PAged P (Server.getUser w.srv P.u) w.cs.c.randSeed sp
 
-theorem QuietImmD.quiet {P : Par} {du dd : Nat} {w : W} (h : QuietImmD P du dd w) : quiet P.u w = true := by
+theorem QuietImmDS.quiet {P : Par} {du dd sl sp : Nat} {w : W} (h : QuietImmDS P du dd sl sp w) : quiet P.u w = true := by
   unfold World.quiet
   simp [h.up, h.down, h.idleC, h.idle.out, h.oq, h.idle.qs, h.idle.lazy, h.idle.q]
+
+/-- slack 1: the desynchronised version of the clean path's quiescent state -/
+abbrev QuietImmD (P : Par) (du dd : Nat) (w : W) : Prop := QuietImmDS P du dd 1 1 w
+
+theorem QuietImmD.quiet {P : Par} {du dd : Nat} {w : W} (h : QuietImmD P du dd w) : quiet P.u w = true := QuietImmDS.quiet h
+
+/-- in sync: the quiescent state with slack of `C02v8.lean` -/
+theorem quietImmDS_zero {P : Par} {sl sp : Nat} {w : W} : QuietImmDS P 0 0 sl sp w ↔ QuietImmS P sl sp w := by
+  constructor
+  · intro h
+    have h1 := h.srv.x.iseq
+    have h2 := h.cst.iseq
+    exact ⟨h.ph, h.cst, h.idleC, h.up, h.down, h.srv, h.idle, h.oq, by have := h.syncu; omega, by have := h.syncd; omega,
+      h.aged, h.paged⟩
+  · intro h
+    have h1 := h.srv.x.iseq
+    have h2 := h.cst.iseq
+    exact ⟨h.ph, h.cst, h.idleC, h.up, h.down, h.srv, h.idle, h.oq, by have := h.syncu; omega, by have := h.syncd; omega,
+      h.aged, h.paged⟩
 
 theorem quietImmD_zero {P : Par} {w : W} : QuietImmD P 0 0 w ↔ QuietImm P w := by
   constructor
